@@ -1500,3 +1500,18 @@ def m_zip(c):
     ia = Ref(ca, ()) if a.extra == "ref" else ea
     ib = Ref(cb, ()) if b.extra == "ref" else eb
     c.ret(Iter("slice", rem, Struct("tuple", [ia, ib]), extra="val"))
+
+
+@model("std::option::Option::as_ref", "std::result::Result::as_ref", "std::option::Option::as_mut", "std::result::Result::as_mut")
+def m_as_ref(c):
+    """&Option<T> -> Option<&T>, &Result<T, E> -> Result<&T, &E>: same variant, the payload by reference into the original"""
+    e, loc, via_ref = enum_arg(c)
+    if e is None or loc is None:
+        c.ret_top()
+        return
+    mutable = c.name.endswith("as_mut")
+    for idx, pay, s in split_enum(c, e, loc):
+        if not pay:
+            c.ret(Enum(e.path, {idx: ()}), st=s)
+        else:
+            c.ret(Enum(e.path, {idx: tuple(Ref(loc[0], loc[1] + (("v", idx), k), mutable) for k in range(len(pay)))}), st=s)
